@@ -13,6 +13,7 @@ RULE = ("constrained schemas as in C03 with 2-4 constraints (subtype and elimina
 ASSUMPTIONS = ["a schedule is a choice of iteration order at each re-check point (what a Python set could produce)",
                "divergence only between TypingError subclasses when every schedule fails is known finding D14"]
 TRUSTED = ["harness/infer.py (hook installation, canonical rendering)"]
+OWN_CORPUS = True
 
 
 class Sched:
